@@ -419,6 +419,9 @@ def run(pid, tier, seed, replay):
     asfound_seen = {}
     for fam, rg, shapes, roots, r1, outs, res, rw, nww in results:
         nreq = sum(o[1]["requests"] for o in outs)
+        nrej = sum(o[1].get("scheduled_writes_rejected", 0) for o in outs)
+        if nrej:
+            drifts.append("family %s: %d transactions scheduled between pages by the model were rejected by the implementation (write side)" % (fam, nrej))
         for (tr, summ), (r3, fails, drift) in zip(outs, res):
             nlines = sum(1 for _ in open(tr))
             if r3.distinct != nlines:
